@@ -49,6 +49,14 @@ CHECKS = {
              'row orders, case variants), every label subset/order/case, every value over defined+undefined bits, every existence query; load/reload histories; '
              'plus seeded random files (up to 8 groups x 64 labels) whose real call histories TLC accepts or rejects action by action.',
         note='Trusted: TLC, the .par renderer in c07.py, bit-set abstraction of uint64. File-side names upper case (as sdssMaskbits.par); repeated labels in one query not asserted.'),
+    'C12': dict(
+        category='model_checking', design='DESIGN.md section 4 C12',
+        technique='TLA+ spec (Mangle: caps over exact rational unit vectors, polygon/window membership, SetUseCaps, three storage forms as data; 14 laws) enumerated by TLC; every TLC state replayed into '
+                  'is_in_cap/is_in_polygon/is_in_window (in-memory, FITS raw, FITS converted, .ply, window_read balkans) and set_use_caps; recorded random rational geometry judged by Trace_Mangle',
+        text='Bounded-exhaustive over a pool of 62 rational unit vectors (incl. points whose float self-dot exceeds 1) x 13 cm values: every cap, polygons of 0..2 (3) caps from a 10-cap pool with every use-mask '
+             '(incl. bits beyond ncaps) and ncaps argument, windows of 1..2 (3) polygons in five storage routes, every in-precondition index list with duplicate / negative-duplicate / same-centre caps and all flags. '
+             'Membership is decided exactly (rational margins far above rounding); exact boundary points are left undecided as the statement allows.',
+        note='Trusted: TLC, the rational->float concretisation (normalised vectors), astropy FITS writing of the polygon tables from TLC\'s own data.'),
     'C14': dict(
         category='model_checking', design='DESIGN.md section 4 C14',
         technique='TLA+ spec (IdlBuiltins over exact rationals, every function phrased twice and TLC checks the phrasings agree, 39 laws); TLC enumerates arrays/widths/shapes; '
